@@ -129,6 +129,7 @@ pub fn peephole_compile<'a>(
   let constants = hooks.manage(&*constants);
   hooks.push_root(constants);
   let lines = hooks.manage(&*lines);
+  hooks.pop_roots(2);
 
   assert_eq!(lines.len(), instructions.len());
 
